@@ -30,3 +30,14 @@ package combine
 //@ loop 3 invariant true
 //@ loop 4 invariant len(combinedKeys) == $i && forall(j, 0, $i, res(0, tbls.SecretToPublicKey(combinedKeys[j])) == res(0, tblsconv.PubkeyFromBytes(lock.Validators[j].PubKey)))
 //@ loop 5 invariant true
+
+// Every node directory that contributes key shares has its lock loaded through cluster.LoadClusterLock with the caller's
+// verification flag (hashes and signatures are checked there unless --no-verify), the lock that is returned is one of
+// those, and (when verifying) all of them carry the same lock hash.
+//@ func loadManifest
+//@ props C12
+//@ ghost lastLoaded *cluster.Lock
+//@ ghostafter cluster.LoadClusterLock: lastLoaded = cl
+//@ callreq cluster.LoadClusterLock: a3 == noverify && a4 == eth1Cl
+//@ ensures r2 == nil ==> r0 != nil && r0 == lastLoaded && ncalls(cluster.LoadClusterLock) >= 1 && len(r1) == ncalls(cluster.LoadClusterLock)
+//@ loop 1 invariant len(possibleValKeysDir) == ncalls(cluster.LoadClusterLock) && (lastCluster == nil <==> ncalls(cluster.LoadClusterLock) == 0) && (lastCluster != nil ==> lastCluster == lastLoaded)
